@@ -110,3 +110,12 @@ pub use wasm::*;
 #[cfg(feature = "verif_hooks")]
 #[doc(hidden)]
 pub mod verif_hooks;
+
+#[cfg(all(
+    feature = "verif_hooks",
+    feature = "svg",
+    not(target_arch = "wasm32")
+))]
+#[path = "wasm.rs"]
+#[doc(hidden)]
+pub mod verif_wasm_host;
